@@ -44,6 +44,21 @@ def model_files(pid):
     return " + ".join("%s/{%s}.v" % (d, ",".join(fs)) for d, fs in groups.items())
 
 
+def translator_list():
+    lines = ["* Translators (trusted, fail-closed, run before every Coq build; output `coq/theories/Gen/*.v` is never committed;\n"
+             "  a construct outside a translator's grammar is an error naming the source line, reported by the check as a broken tie;\n"
+             "  theorems over the generated files are re-checked against what the source says now):\n"]
+    for f in sorted(glob.glob(os.path.join(ROOT, "translators", "*.py"))):
+        try:
+            import ast as _ast
+            d = _ast.get_docstring(_ast.parse(open(f).read())) or ""
+        except SyntaxError:
+            d = ""
+        first = " ".join(d.split("\n\n")[0].split())[:260]
+        lines.append(f"  - `translators/{os.path.basename(f)}`: {first}\n")
+    return "".join(lines)
+
+
 def ntheorems(pid):
     v = open(os.path.join(ROOT, "coq", "theories", "Props", pid + ".v")).read()
     v = re.sub(r"\(\*.*?\*\)", "", v, flags=re.S)
@@ -184,18 +199,15 @@ snapshot to confirm that the defects repaired earlier are re-detected.
   greps for these on every run and a hit fails the check. A stale `.vo` never counts: the check asks `make` for
   `Props/Cxx.vo` with all its dependencies on every run.
 * No extraction is used (no `Extract` directive): the model runs inside Coq.
-* Translators (trusted, fail-closed, run before every Coq build; output `coq/theories/Gen/*.v` is never committed):
-  `translators/gates_tables.py` (gate coefficient tables from `generators/gates.py` via `ast`),
-  `translators/view_formulas.py` (the write factors of the live spin/binary views from `binary/vartypeview.py`),
-  `translators/codec_constants.py` (magic strings, length-byte counts, alignment, version tuples, vartype enum values
-  from `serialization/fileview.py` and the model modules). Theorems over the generated files are re-checked against
-  what the source says now; a construct outside a translator's grammar is an error naming the source line.
-* The correspondence harness: `check`, `harness/common.py`, `harness/wlib.py`, `harness/gen.py`, the per-property
+""")
+out.append(translator_list())
+out.append("""* The correspondence harness: `check`, `harness/common.py`, `harness/wlib.py`, `harness/gen.py`, the per-property
   workers and configs; the rendering of observations into Coq terms; CPython, NumPy, Cython and the C++ toolchain that
   build the scratch copy; for C20 `cpp/driver.cpp`, clang++ 14 with ASan/UBSan and (thorough tier) valgrind as monitors;
   for C12 the classification of the writer's words into tokens.
-* Modelled by hand and tied by correspondence only (no translator): all C++ headers, all `.pyx`, `sampleset.py`,
-  `constrained.py`, operator dispatch, LP writer, serialisation. Not modelled at all
+* Modelled by hand and tied by correspondence (the translators above pin constants, tables, formulas, dispatch and
+  statement shapes, not whole algorithms): the algorithms of the C++ headers and `.pyx` files, `sampleset.py`,
+  `constrained.py`, the LP writer, serialisation. Not modelled at all
   (oracles): IEEE-754 rounding (dyadic exactness instead), NumPy internals (`argsort` tie order, `packbits`),
   Python `json`/`pickle`/`zipfile`/`npz` beyond the modelled JSON subset, character-level lexing of the C++ LP
   parser in `extern/filereaderlp` (its token-level behaviour is compared with a verified reference parser), NumPy
